@@ -399,7 +399,7 @@ class Exec:
         info = _loop_state(st.body, set())
         modified = sorted(info["assigned"] | info["lists"])
         if info["dict_writes"]:
-            raise Unsupported("dict writes inside while loop")
+            return self.run_while_counted(st, fr, ordinal, inv, info)
         self.oblige(f"inv-init:loop{ordinal}", fr, self.eval_spec(inv, fr), st)
         env0 = dict(fr.env)
         for name in modified:
@@ -414,6 +414,112 @@ class Exec:
                 self.oblige(f"inv-preserved:loop{ordinal}#{k}", f, self.eval_spec(inv, f), st)
         g2 = self.truth(self.eval(st.test, fr), fr)
         self.assume(fr, z3.Not(zbool(g2)))
+        return [fr]
+
+    def run_while_counted(self, st, fr, ordinal, inv, info):
+        """A while loop that writes a dict (a graph layer built level by level).  The loop is cut like a for loop over
+        a ghost counter `_i` in [0, T): T (fresh, >= 0) is the number of iterations executed, so the loop condition holds
+        at the start of every iteration _i < T and fails in the state after T iterations.  Variables that are REBOUND
+        to structured values in the body (lists of keys) must be given in closed form as a function of `_i`
+        (`while_closed[ordinal][name]`); the closed form is proved on entry and re-established by the body; carried
+        scalars are havoc'd and constrained by the invariant.  Partial correctness only: termination is not verified."""
+        self.assumptions.add("while loops are verified for partial correctness; termination is not an obligation of tier P")
+        closed = getattr(self.spec, "while_closed", {}).get(ordinal, {})  # name -> fn(ex, fr, env) -> value at ghost index env['_i']
+        modified = sorted(info["assigned"] | info["lists"])
+        missing = [n for n in modified if n not in closed and isinstance(fr.env.get(n), (Ref, Seq, tuple)) and n in info["carried"]]
+        if missing:
+            raise Unsupported(f"while loop #{ordinal} at line {st.lineno} rebinds {missing} (structured, loop-carried) without a closed form")
+        T = fresh_int("T")
+        fr.pc.append(T >= 0)
+        env0 = dict(fr.env)
+        outer_ghosts = {g: fr.env[g] for g in ("_i", "_acc") if g in fr.env}
+        if "_i" in fr.env:
+            fr.env["_outer"] = [fr.env["_i"]] + list(fr.env.get("_outer", []))
+
+        def closed_ok(f, label):
+            for name, fn_ in closed.items():
+                self.oblige(f"{label}:{name}", f, self.equal(f.env.get(name), fn_(self, f, f.env), f), st)
+
+        def closed_set(f):
+            for name, fn_ in closed.items():
+                f.env[name] = fn_(self, f, f.env)
+
+        # entry
+        fr.env["_i"] = 0
+        self.oblige(f"inv-init:loop{ordinal}", fr, self.eval_spec(inv, fr), st)
+        closed_ok(fr, f"inv-init:loop{ordinal}")
+        g0 = self.truth(self.eval(st.test, fr.clone()), fr)
+        # one arbitrary iteration
+        i = fresh_int("w")
+        body = fr.clone()
+        mark = len(body.pc)
+        body.binders = body.binders + ((i, 0, T),)
+        body.marks = body.marks + (mark,)
+        body.pc.append(z3.And(i >= 0, i < T))
+        body.env["_i"] = i
+        for name in modified:
+            if name in closed:
+                continue
+            if name in info["carried"] or name in info["lists"]:
+                body.env[name] = self.havoc_like(env0.get(name), name, body)
+            else:
+                body.env.pop(name, None)
+        closed_set(body)
+        self.assume(body, zbool(self.eval_spec(inv, body)))
+        g = self.truth(self.eval(st.test, body), body)
+        self.assume(body, zbool(g))
+        # by the definition of T the loop condition held at the start of EVERY iteration w < T: recorded for the exit
+        # state when the condition is a function of the ghost counter alone (closed forms), i.e. mentions no havoc'd value
+        guard_all = None
+        if not isinstance(g, bool):
+            havocd = [v for v in body.aux if v not in fr.aux]
+            if not any(_mentions_any((zbool(g),), a, body.heap) for a in havocd):
+                guard_all = z3.ForAll([i], z3.Implies(z3.And(i >= 0, i < T), zbool(g)))
+        new_entries = {}
+        if self.pv.feasible(body.pc):
+            dict_before = {oid: len(v.entries) for oid, v in body.heap.items() if isinstance(v, DictState)}
+            outs = self.run_block(st.body, [body])
+            for k, f in enumerate(outs):
+                f.env["_i"] = i + 1
+                self.oblige(f"inv-preserved:loop{ordinal}#{k}", f, self.eval_spec(inv, f), st)
+                closed_ok(f, f"inv-preserved:loop{ordinal}#{k}")
+                for oid, nb in dict_before.items():
+                    st_ = f.heap.get(oid)
+                    if isinstance(st_, DictState):
+                        new_entries.setdefault(oid, []).extend(st_.entries[nb:])
+        else:
+            self.loop_counter += _count_loops(st.body)
+        # exit: the state after T iterations
+        fr.env["_i"] = T
+        for name in modified:
+            if name in closed:
+                continue
+            if name in info["carried"] or name in info["lists"]:
+                fr.env[name] = self.havoc_like(env0.get(name), name, fr)
+            else:
+                fr.env.pop(name, None)
+        closed_set(fr)
+        self.assume(fr, zbool(self.eval_spec(inv, fr)))
+        if isinstance(g0, bool):
+            if not g0:
+                fr.pc.append(T == 0)
+        else:
+            fr.pc.append(z3.Implies(z3.Not(zbool(g0)), T == 0))
+        g2 = self.truth(self.eval(st.test, fr.clone()), fr)
+        self.assume(fr, z3.Not(zbool(g2)))
+        if guard_all is not None:
+            fr.pc.append(guard_all)
+        for oid, ents in new_entries.items():
+            fr.heap[oid] = fr.heap[oid].extend(ents)
+        fr.env["_T"] = T
+        fr.env.pop("_i", None)
+        if "_outer" in fr.env:
+            rest = list(fr.env["_outer"])[1:]
+            if rest:
+                fr.env["_outer"] = rest
+            else:
+                fr.env.pop("_outer")
+        fr.env.update(outer_ghosts)
         return [fr]
 
     def havoc_like(self, old, name, fr):
@@ -551,7 +657,17 @@ class Exec:
         if isinstance(v, Ref) and v.kind == "list":
             self.assumptions.add("A-alias: a list stored as (part of) a dict value is not mutated afterwards")
             s = fr.heap[v.oid]
-            return Seq(s.length, s.fn, "list")
+            heap = dict(fr.heap)  # lists nested inside the stored list are snapshotted too (same assumption)
+
+            def deep(x, heap=heap):
+                if isinstance(x, Ref) and x.kind == "list" and x.oid in heap:
+                    inner = heap[x.oid]
+                    return Seq(inner.length, lambda k, inner=inner: deep(inner.fn(k)), "list")
+                if isinstance(x, tuple):
+                    return tuple(deep(y) for y in x)
+                return x
+
+            return Seq(s.length, lambda k, s=s: deep(s.fn(k)), "list")
         if isinstance(v, tuple):
             return tuple(self._freeze(x, fr) for x in v)
         return v
